@@ -250,7 +250,10 @@ func populate(rng *simrt.Rng, md protoreflect.MessageDescriptor, msg protoreflec
 		msg.Set(md.Fields().ByName("proto"), protoreflect.ValueOfBytes(b))
 		// an Any with a type name but neither proto bytes nor JSON makes the encoder emit
 		// malformed JSON (an input-validity matter outside C10): never generate it
-		if len(b) == 0 || rng.Bool(0.5) {
+		if coldStart && len(b) == 0 {
+			msg.Set(md.Fields().ByName("j5_json"), protoreflect.ValueOfBytes([]byte("{}")))
+		}
+		if (len(b) == 0 || rng.Bool(0.5)) && !coldStart { // a cold-start process prepares its inputs without the code under test
 			if js, err := codec.NewCodec().ProtoToJSON(im); err == nil {
 				msg.Set(md.Fields().ByName("j5_json"), protoreflect.ValueOfBytes(js))
 			}
